@@ -1,6 +1,6 @@
 """C01 - a command line is accepted iff it is a sentence of the spec's language."""
 import collections, random
-from vlib import core, specgen as g, refenum
+from vlib import core, specgen as g, refenum, structeq
 from props import refcommon as rc
 
 PROP = "C01"
@@ -36,16 +36,41 @@ def run(tier, wd):
             if c["acc"] and len(rep.cov["samples"]) < 6 and len(c["argv"]) >= 2:
                 rep.cov["samples"].append({"spec": specs[c["si"]]["str"], "env": c["env"], "argv": c["argv"], "reference": "accepts", "library_ran": r.get("ran")})
         rep.cov["families_" + label] = {"specs": len(specs), "alphabet": alphabet, "envsets": envsets, "maxlen": maxlen}
+    # structural part: the automaton the real parser compiled is language-equivalent to the spec's regular expression, for
+    # label sequences of any length (binding C)
+    big = g.family(g.STD_PROG, 1500 if tier == "quick" else 20000, seed + 11, depth=4)
+    verdicts = structeq.check(rep, wd, binpath, [g.STD_PROG], big)
+    sv = collections.Counter(v if isinstance(v, str) else v[0] for v in verdicts)
+    for s_, v in zip(big, verdicts):
+        if v == "equivalent" or v == "skipped":
+            continue
+        if isinstance(v, tuple):
+            rep.violation("structural: the automaton compiled from %r is not equivalent to the spec's regular expression; distinguishing label path %s" % (s_["str"], v[1]),
+                          {"engine": "structeq", "spec": s_["str"], "ast": s_["ast"], "path": v[1]})
+        else:
+            rep.violation("structural: compiling the well-formed spec %r: %s" % (s_["str"], v), {"engine": "structeq", "spec": s_["str"], "ast": s_["ast"], "path": v})
+    rep.cov["structural_specs"] = dict(sv)
+    rep.cov["evaluations"] += len(big)
     rep.cov["classes"] = dict(cnt)
     rep.cov["distinct_nontrivial"] = len(nontrivial)
     rep.cov["exhaustive"] = True
     rep.cov["rule"] = ("every spec of the family x every listed environment set x every argument vector over the alphabet up to maxlen "
                        "(TLC Init enumerates, RefSemantics predicts, the library executes each); non-trivial = accepted by the reference, "
-                       "or rejected without containing an undeclared option token")
+                       "or rejected without containing an undeclared option token. Structural part: for 1500 (quick) / 20000 (thorough) further random specs "
+                       "TLC explores the product of the subset constructions of the real compiled automaton and of the AST's automaton (equal acceptance in every "
+                       "reachable pair = equal languages for inputs of any length)")
     rep.assumptions += ["standard program: flags -a/--aa, -b; valued -o/--out, -e; arguments X, Y; all declared with a recording value type",
                         "unclaimed cases (DESIGN 3.6) produce no verdict"]
     return rep.finish()
 
 
 def replay(path, wd):
+    import json
+    with open(path) as f:
+        o = json.load(f)["replay"]
+    if o.get("engine") == "structeq":
+        rep = core.Report(PROP, "quick", "model_checking")
+        v = structeq.check(rep, wd, core.build_harness(), [g.STD_PROG], [{"ast": o["ast"], "str": o["spec"]}])[0]
+        print("replay: %r -> %s" % (o["spec"], v))
+        return 0 if v == "equivalent" else 1
     return rc.rerun_replay(path, wd, is_violation)
